@@ -103,6 +103,8 @@ def run(ctx, repo):
     ctx.rule('R2', 'factor and speed interpolations are convex combinations with the shorter event at t = 0')
     ctx.rule('R4', 'get_distance scales the quantity by the unit before truncating')
     ctx.rule('R5', 'a neighbour row without a distance counts as an end of the table (nearest end is used)')
+    ctx.rule('R6', 'below the first running row: either the lower-end arm of find_row_by_distance compares the scan index with the first '
+                   'running row, or calculate_factor tests the neighbour\'s distance before it evaluates the neighbour\'s factor')
     ctx.rule('R3', 'data: row "50" present per gender; running distances and standards positive')
     frd = mod.func('AgeGrader.find_row_by_distance')
     # can the two indices be equal?  (chained assignment of both from one value)
@@ -289,14 +291,25 @@ def run(ctx, repo):
     want = {'lo': 'hi', 'hi': 'lo'}
     label = {'lo': 'shorter', 'hi': 'longer'}
     found = {}
+    ev_side = {}        # event-code variable -> side, through get_distance(event_var) defining that side's distance
+    for nm, vs in envc.items():
+        for a in vs:
+            if isinstance(a, ast.Call) and call_name(a) == 'get_distance' and a.args and isinstance(a.args[0], ast.Name) and roles_cf.get(nm):
+                ev_side[a.args[0].id] = roles_cf[nm]
     for n in ast.walk(cf):
         if isinstance(n, ast.If) and isinstance(n.test, ast.Compare) and isinstance(n.test.ops[0], ast.Is) \
                 and isinstance(n.test.comparators[0], ast.Constant) and n.test.comparators[0].value is None and isinstance(n.body[-1], ast.Return) \
-                and isinstance(n.test.left, ast.Name) and isinstance(n.body[-1].value, ast.Name):
+                and isinstance(n.test.left, ast.Name) and isinstance(n.body[-1].value, (ast.Name, ast.Call)):
             side = roles_cf.get(n.test.left.id)
-            other = roles_cf.get(n.body[-1].value.id)
+            rv = n.body[-1].value
             isdist = any(isinstance(v, ast.Call) and call_name(v) == 'get_distance' for v in envc.get(n.test.left.id, []))
-            isfac = any(isinstance(v, ast.Call) and call_name(v) == 'calculate_factor' for v in envc.get(n.body[-1].value.id, []))
+            if isinstance(rv, ast.Name):
+                other = roles_cf.get(rv.id)
+                isfac = any(isinstance(v, ast.Call) and call_name(v) == 'calculate_factor' for v in envc.get(rv.id, []))
+            else:
+                # return self.calculate_factor(gender, age, event_of_the_other_side)
+                isfac = call_name(rv) == 'calculate_factor' and bool(rv.args) and isinstance(rv.args[-1], ast.Name)
+                other = ev_side.get(rv.args[-1].id) if isfac else None
             if side and other and want[side] == other and isdist and isfac:
                 found[side] = True
     for side, other in want.items():
@@ -307,6 +320,88 @@ def run(ctx, repo):
                         'when the %s neighbour has no distance (below 50 m it is the field row that precedes "50" in the table) the %s '
                         'neighbour\'s factor must be returned; that guard is gone, so the factor is blended with a throwing event\'s' % (
                             label[side], label[other]), "wma_age_factor('m', 60, '20')")
+    # ---- R6 the lower end of the scan is the first running row, not row 0: find_row_by_distance skips to the row "50" and scans on; the
+    # "shorter than everything" arm must test the index against where the scan started
+    skip = scan = None
+    for n in ast.walk(frd):
+        if isinstance(n, ast.While):
+            cs = [c for c in ast.walk(n.test) if isinstance(c, ast.Compare)]
+            if any(isinstance(c.ops[0], ast.NotEq) and isinstance(c.comparators[0], ast.Constant) and isinstance(c.comparators[0].value, str)
+                   for c in cs):
+                skip = n
+            elif any(isinstance(c.ops[0], (ast.Lt, ast.LtE)) and isinstance(c.left, ast.Subscript) for c in cs):
+                scan = n
+    if scan is None:
+        raise AnalysisError('find_row_by_distance: scan loop not found')
+    ivars = [st.target.id for st in scan.body if isinstance(st, ast.AugAssign) and isinstance(st.target, ast.Name)]
+    if not ivars:
+        raise AnalysisError('find_row_by_distance: scan index not found')
+    iv = ivars[0]
+    starts = set()
+    for rel in TABLES:
+        d_ = repo.json(rel)
+        for g_ in ('m', 'f'):
+            codes_ = [r[0] for r in (d_.get(g_) or [])]
+            if '50' in codes_:
+                starts.add(codes_.index('50'))
+    low_tests = []
+    for n in ast.walk(frd):
+        if isinstance(n, ast.If) and n.lineno > scan.lineno and isinstance(n.test, ast.Compare) and len(n.test.ops) == 1 \
+                and isinstance(n.test.left, ast.Name) and n.test.left.id == iv and isinstance(n.test.ops[0], (ast.Eq, ast.LtE)):
+            low_tests.append(n)
+    if not low_tests:
+        ctx.finding('R6', '%s::AgeGrader.find_row_by_distance::no lower end' % AGE, AGE, frd.lineno,
+                    'find_row_by_distance has no arm for a distance shorter than every tabulated run')
+    for n in low_tests[:1]:
+        cmpv = n.test.comparators[0]
+        okc = False
+        if isinstance(cmpv, ast.Constant) and isinstance(cmpv.value, int):
+            okc = skip is None and cmpv.value == 0 or starts == {cmpv.value}
+        elif isinstance(cmpv, ast.Name):
+            # a snapshot of the index taken between the skip loop and the scan loop
+            snaps = [a for a in ast.walk(frd) if isinstance(a, ast.Assign) and any(isinstance(t, ast.Name) and t.id == cmpv.id for t in a.targets)]
+            okc = bool(snaps) and all(isinstance(a.value, ast.Name) and a.value.id == iv and (skip is None or a.lineno > skip.lineno)
+                                      and a.lineno < scan.lineno for a in snaps)
+        if okc:
+            ctx.ok('R6', 'lower end of the scan: `%s` compares the index with the first running row' % unparse(n.test))
+            continue
+        # the arm is dead, so the shorter neighbour of a distance below the first run is the row before it.  That is tolerable only if
+        # calculate_factor looks at the neighbour's distance BEFORE it evaluates the neighbour's factor (the row has no factors for
+        # some ages): every recursive factor call on a neighbour comes after the `distance is None` return of that neighbour
+        holes = []
+        for rel in TABLES:
+            d_ = repo.json(rel)
+            for g_ in ('m', 'f'):
+                rows_ = d_.get(g_) or []
+                codes_ = [r[0] for r in rows_]
+                if '50' in codes_ and codes_.index('50') > 0 and any(c is None for c in rows_[codes_.index('50') - 1][3:]):
+                    holes.append('%s %s row %s' % (rel.split('/')[-1], g_, rows_[codes_.index('50') - 1][0]))
+        guarded_first = True
+        detail = ''
+        for side in ('lo', 'hi'):
+            ev_names = {a.args[0].id for nm, vs in envc.items() if roles_cf.get(nm) == side for a in vs
+                        if isinstance(a, ast.Call) and call_name(a) == 'get_distance' and a.args and isinstance(a.args[0], ast.Name)}
+            guards = [g for g in ast.walk(cf) if isinstance(g, ast.If) and isinstance(g.test, ast.Compare) and isinstance(g.test.ops[0], ast.Is)
+                      and isinstance(g.test.left, ast.Name) and roles_cf.get(g.test.left.id) == side
+                      and isinstance(g.test.comparators[0], ast.Constant) and g.test.comparators[0].value is None]
+            calls = [c for c in ast.walk(cf) if isinstance(c, ast.Call) and call_name(c) == 'calculate_factor' and c.args
+                     and isinstance(c.args[-1], ast.Name) and c.args[-1].id in ev_names]
+            if not guards:
+                continue      # reported by R5
+            gl = min(g.lineno for g in guards)
+            early = [c for c in calls if c.lineno < gl]
+            if early and side == 'lo':
+                guarded_first = False
+                detail = 'line %d evaluates the factor of the shorter neighbour before line %d tests its distance' % (early[0].lineno, gl)
+        if guarded_first or not holes:
+            ctx.ok('R6', 'lower-end arm `%s` is never taken (scan starts at row %s), but the neighbour without a distance is recognised before '
+                         'its factor is evaluated' % (unparse(n.test), sorted(starts)))
+        else:
+            ctx.finding('R6', '%s::AgeGrader.find_row_by_distance::lower end tested against %s' % (AGE, unparse(cmpv)), AGE, n.lineno,
+                        'the scan starts at the row "50" (row %s of the tables), but the arm for a distance shorter than every tabulated run tests '
+                        '`%s`: it is never taken, so below 50 m the "shorter neighbour" is the row before "50" - a throwing event without a '
+                        'distance and, for some ages, without factors (%s); %s' % (sorted(starts), unparse(n.test), ', '.join(holes[:2]), detail),
+                        "AgeGrader().calculate_factor('m', 10, '40') raises TypeError")
     # ---- R3 data
     n_rows = 0
     for rel in TABLES:
